@@ -145,6 +145,30 @@ func TestGovcAudit(t *testing.T) {
 			}
 		}
 	}
+	// filepath.WalkDir visits a tree in the protocol's path order (assumed by the C09 contracts:
+	// pre-order over name-sorted directories; the separator then sorts below every other byte)
+	{
+		root := t.TempDir()
+		for _, d := range []string{"a", "a/b", "a-b", "a.b", "ab", "a/b/c", "a b", "A", "a\x01"} {
+			os.MkdirAll(filepath.Join(root, d), 0755)
+		}
+		for _, f := range []string{"a/b/c/f", "a-b/x", "a/-", "a/b-c", "z", "a/b/c.d"} {
+			os.WriteFile(filepath.Join(root, f), []byte("x"), 0644)
+		}
+		prev := ""
+		filepath.WalkDir(root, func(p string, d os.DirEntry, err error) error {
+			rel, _ := filepath.Rel(root, p)
+			if rel == "." {
+				return nil
+			}
+			n++
+			if prev != "" && ComparePath(prev, rel) >= 0 {
+				fail("WalkDir order: %q visited after %q", rel, prev)
+			}
+			prev = rel
+			return nil
+		})
+	}
 	e := errors.New("x")
 	n += 6
 	if errors.WithStack(nil) != nil || errors.WithStack(e) == nil || errors.Wrap(nil, "m") != nil || errors.Wrap(e, "m") == nil || errors.Wrapf(nil, "m") != nil || errors.Wrapf(e, "m") == nil || errors.Errorf("x") == nil || fmt.Errorf("x") == nil {
